@@ -13,6 +13,10 @@ import sys
 import time
 
 ROOT = os.path.dirname(os.path.dirname(os.path.abspath(__file__)))
+# SEED_REPO=<scratch worktree of /repo at its HEAD>: patches are applied there and the checks import dask_expr from it (PYTHONPATH), so /repo
+# itself stays untouched and usable meanwhile; default: /repo itself, as the brief describes
+REPO = os.environ.get("SEED_REPO", "/repo")
+PYP = "" if REPO == "/repo" else f"PYTHONPATH={REPO} "
 SEEDED = os.path.join(ROOT, "seeded")
 
 CHECKS = {
@@ -35,6 +39,8 @@ CHECKS = {
     "C18-seed1": ["C18", "C15"], "C18-seed2": ["C18"],
     "C19-seed1": ["C19", "C03"], "C19-seed2": ["C19", "C15"],
     "C01-seed3": ["C01", "C06"], "C01-seed4": ["C01", "C11"], "C07-seed3": ["C07"], "C07-seed4": ["C07", "C02", "C01"], "C09-seed3": ["C09"], "C09-seed4": ["C09", "C11"],
+    "C15-seed3": ["C15", "C16"], "C15-seed4": ["C15", "C18"], "C19-seed3": ["C19", "C03"], "C19-seed4": ["C19", "C08"],
+    "C14-seed3": ["C14", "C19"], "C14-seed4": ["C14", "C19"], "C16-seed3": ["C16", "C19"], "C16-seed4": ["C16", "C18"],
     "C17-seed3": ["C17", "C06", "C11"], "C17-seed4": ["C17", "C08", "C11"],
     "C03-seed3": ["C03", "C18"], "C13-seed3": ["C13", "C09"], "C10-seed3": ["C10", "C12"], "C12-seed3": ["C12", "C10"], "C12-seed4": ["C12", "C09"],
 }
@@ -59,16 +65,16 @@ def needs(notes):
 
 
 def demo(path):
-    r = sh(f"cd /repo && DASK_EXPR_ROOT=/repo timeout 900 /venv/bin/python {path}")
+    r = sh(f"cd {REPO} && DASK_EXPR_ROOT={REPO} timeout 900 /venv/bin/python {path}")
     return r.returncode
 
 
 def main():
     names = sys.argv[1:] or sorted(d for d in os.listdir(SEEDED) if os.path.isdir(os.path.join(SEEDED, d)))
-    if sh("git -C /repo status --porcelain --untracked-files=no").stdout.strip():
+    if sh(f"git -C {REPO} status --porcelain --untracked-files=no").stdout.strip():
         print("/repo not clean")
         return 9
-    head = sh("git -C /repo rev-parse --short HEAD").stdout.strip()
+    head = sh(f"git -C {REPO} rev-parse --short HEAD").stdout.strip()
     rows = []
     for name in names:
         d = os.path.join(SEEDED, name)
@@ -76,7 +82,7 @@ def main():
         notes = open(os.path.join(d, "notes.md")).read() if os.path.exists(os.path.join(d, "notes.md")) else ""
         meta = {"seed": name, "property": name.split("-")[0], "patch": "patch.diff", "demonstration": "demo.py" if os.path.exists(os.path.join(d, "demo.py")) else None,
                 "what_it_needs_to_manifest": needs(notes), "repo_head": head, "checks_run": {}, "note": NOTES.get(name, "")}
-        applies = sh(f"git -C /repo apply --check {patch}").returncode == 0
+        applies = sh(f"git -C {REPO} apply --check {patch}").returncode == 0
         meta["applies_to_repo_head"] = applies
         checks = CHECKS[name] if name in CHECKS else [name.split("-")[0]]
         if not applies or not checks:
@@ -84,13 +90,13 @@ def main():
             json.dump(meta, open(os.path.join(d, "meta.json"), "w"), indent=1)
             rows.append((name, "-", "-", meta["status"], meta["note"][:120]))
             continue
-        sh(f"git -C /repo apply {patch}")
+        sh(f"git -C {REPO} apply {patch}")
         try:
             if meta["demonstration"]:
                 meta["demo_exit_with_patch"] = demo(os.path.join(d, "demo.py"))
             for cid in checks:
                 t0 = time.time()
-                r = sh(f"cd {ROOT} && VERIF_SEED=0 ./check {cid} --tier quick")
+                r = sh(f"cd {ROOT} && {PYP}VERIF_SEED=0 ./check {cid} --tier quick")
                 viol = [l for l in r.stdout.splitlines() if l.startswith("VIOLATION")]
                 first = ""
                 lines = r.stdout.splitlines()
@@ -100,7 +106,7 @@ def main():
                         break
                 meta["checks_run"][cid] = {"exit": r.returncode, "violations": len(viol), "first_violation": first, "summary": (lines[-1] if lines else "")[:200], "wall_s": round(time.time() - t0, 1)}
         finally:
-            sh("git -C /repo checkout -- .")
+            sh(f"git -C {REPO} checkout -- .")
         if meta["demonstration"]:
             meta["demo_exit_without_patch"] = demo(os.path.join(d, "demo.py"))
         caught = [c for c, v in meta["checks_run"].items() if v["exit"] == 1 and v["violations"] > 0]
